@@ -169,6 +169,10 @@ func c06sRun(filters []c06sFilter, fidx []int, lines []int) string {
 	}
 	rd := benchfmt.NewReader(strings.NewReader(text.String()), "f")
 	n := 0
+	// the answer about the previous result, kept by the caller while the same Filter is asked about the next one:
+	// an answer that has been given does not change
+	held := make([]Match, len(fidx))
+	heldWant := make([][]bool, len(fidx))
 	for rd.Scan() {
 		res, ok := rd.Result().(*benchfmt.Result)
 		if !ok {
@@ -186,13 +190,21 @@ func c06sRun(filters []c06sFilter, fidx []int, lines []int) string {
 			ev := filters[fidx[i]].eval
 			m, _ := f.Match(res)
 			anyW := false
+			var wants []bool
 			for vi := range w.units {
 				ww := ev(w, vi)
+				wants = append(wants, ww)
 				anyW = anyW || ww
 				if m.Test(vi) != ww {
 					return fmt.Sprintf("filter %q, result %d of the stream (%s, config %v): measurement %d (%s) matched=%v want %v", filters[fidx[i]].text, n, w.full, w.cfg, vi, w.units[vi][1], m.Test(vi), ww)
 				}
 			}
+			for vi, hw := range heldWant[i] {
+				if held[i].Test(vi) != hw {
+					return fmt.Sprintf("filter %q: the Match obtained for result %d of the stream says measurement %d matched=%v after the same Filter was asked about result %d (it said %v before)", filters[fidx[i]].text, n-1, vi, held[i].Test(vi), n, hw)
+				}
+			}
+			held[i], heldWant[i] = m, wants
 			// Apply on a clone (the Reader's own result must stay intact for the next filter).
 			cl := res.Clone()
 			ok, _ := f.Apply(cl)
@@ -237,7 +249,7 @@ func c06Streams(c *mc.Check, maxLen int) {
 		}
 		return msg
 	}
-	f := c.Family("filter-over-reader-streams", fmt.Sprintf("every stream of ≤%d lines from %q read by one Reader (which rewrites its single Result in place: same-length and different-length values of one key, deletion, names differing in one byte, a rescaled unit) × %d filters (every term of %d — literal, regexp and value-list terms on a file key, .name, a sub-name key, /gomaxprocs, .fullname, .unit — its negation, and every AND / OR-NOT of two terms), each Filter compiled ONCE and asked about every result of the stream in turn: Test(i) per measurement and Apply on a clone equal the reference evaluation of that result alone; non-trivial = streams with ≥2 results", maxLen, c06sLines, len(filters), len(c06sTerms)), replay)
+	f := c.Family("filter-over-reader-streams", fmt.Sprintf("every stream of ≤%d lines from %q read by one Reader (which rewrites its single Result in place: same-length and different-length values of one key, deletion, names differing in one byte, a rescaled unit) × %d filters (every term of %d — literal, regexp and value-list terms on a file key, .name, a sub-name key, /gomaxprocs, .fullname, .unit — its negation, and every AND / OR-NOT of two terms), each Filter compiled ONCE and asked about every result of the stream in turn: Test(i) per measurement and Apply on a clone equal the reference evaluation of that result alone, and the Match obtained for the previous result still says what it said; non-trivial = streams with ≥2 results", maxLen, c06sLines, len(filters), len(c06sTerms)), replay)
 	if c.Replaying() {
 		return
 	}
